@@ -42,6 +42,21 @@ func VerifC10GraphSize(arch int, blocks int) {
 	case 2:
 		kv["tokenizer.ggml.tokens"] = "not an array"
 	}
+	if arch == 1 {
+		// an array the estimate reads through a typed accessor: absent, declared but not collected (the
+		// decoder keeps only the count of arrays above its limit), collected with 32-bit integers of
+		// either signedness, or collected with elements of another type
+		switch verifChoice(4) {
+		case 1:
+			n := verifNondetU32("declared")
+			verifAssume(n <= 3)
+			kv[name+".attention.cross_attention_layers"] = &array{size: int(n)}
+		case 2:
+			kv[name+".attention.cross_attention_layers"] = &array{size: 2, values: []any{verifNondetU32("elem"), verifNondetInt32("elem")}}
+		case 3:
+			kv[name+".attention.cross_attention_layers"] = &array{size: 1, values: []any{"a string"}}
+		}
+	}
 	var ts []*Tensor
 	switch verifChoice(3) {
 	case 1:
